@@ -102,6 +102,31 @@ PROPS['C13'] = dict(
     explanation='Model decoder is a total structurally-recursive function with outcomes ok/err; theorems: prefix consumption and 4*alloc <= maxCap*consumed for capped schemas, every registered schema is capped (after the fix: commit); tie: malformed-input differential with outcome classes.',
 )
 
+AS_RULE = ('actorsys: the real actor.System under the coarse baton scheduler (a step = one HandleEnvelop of one actor, or one operation from outside), lock-step against the Lean model '
+    'after every step (per context: state, paused, zombie, restarting, incarnation, queue lengths, stash ids, children, watchers; registry; dead letters; the events of the step: what each behaviour saw, '
+    'failures, decisions, spawns and spawn errors, restarts, zombies, termination events). Scenarios: (1) supervision matrix — every decision (incl. decision lists with escalation) x {one-for-one, one-for-all} x '
+    'failure site {OnLaunch, user message, child OnKilled} x restart hooks {none, provider, Prelaunch fails, Restarted fails}, with a burst of mail queued behind the failing message and probes after quiescence; '
+    '(2) seeded random rule tables (tell / spawn / kill / poison / panic / stash / unstash / watch / become) over 3 names and 4 scripts with external spawn / tell (own, fresh-path and long-lived parsed refs) / kill, '
+    'random delivery order, drained to quiescence. Every case is a distinct scenario+schedule.')
+AS_TRUST = COMMON_TRUST + ['coarse baton: a handler execution is atomic (justified by C01: one handler at a time per mailbox) — interleavings inside a handler between different actors are not explored here',
+                           'scripted behaviours (rule tables) stand for arbitrary user code; log records captured through the Logger interface are the event observations']
+AS_ASSUME = ['mailbox policy (system first, user only when not paused, one handler at a time) is C01/C02', 'ask/futures, scheduler and event stream are outside this model (C04, C20, C19)']
+
+for _pid, _only, _must in [
+    ('C03', r'LOST-USER-MESSAGE|AFTER-STOP|ended twice|PANIC|LOST WAKE-UP|FATAL', ['ev:dead-letter']),
+    ('C05', r'LIFECYCLE|LAUNCH-TWICE|RESTART-NO-LAUNCH|PANIC|FATAL', ['ev:restarted', 'ev:zombie', 'ev:spawn-err:prelaunch']),
+    ('C06', r'KILL-ONCE|CHILDREN-FIRST|NOT-RELEASED|HALF-STOPPED|PANIC|FATAL', ['ev:killed-event', 'ev:spawn-err:exists', 'ev:spawn-err:dead']),
+    ('C08', r'DECIDE-TWICE|PANIC|FATAL', ['ev:decide:1', 'ev:decide:2', 'ev:decide:3', 'ev:decide:4', 'ev:decide:5', 'ev:decide:6', 'matrix:']),
+    ('C09', r'STAYS-PAUSED|HALF-STOPPED|NO-ANSWER|PANIC|FATAL', ['ev:restarted', 'ev:zombie', 'ev:decide:5', 'ev:decide:2', 'ev:decide:4']),
+]:
+    PROPS[_pid] = dict(
+        modules=['Vivid.Props.' + _pid],
+        gens=[],
+        engines=[dict(name='actorsys', only=_only, must_hit=_must)],
+        rule=AS_RULE, trusted_base=AS_TRUST, assumptions=AS_ASSUME,
+        explanation='Executable model of the actor runtime at handler granularity with scripted behaviours; invariants proved over every reachable state (all trees, all rule tables, all schedules of handler steps and outside operations); lock-step ties the model to the real system.',
+    )
+
 # Text of level_claimed per property (MANIFEST); NOT_APPLICABLE: properties not claimed, with reason.
 LEVEL_TEXT = {}
 NOT_APPLICABLE = {}
